@@ -964,7 +964,7 @@ static std::string run_cmd(const std::vector<std::string>& a) {
         upa::url u, u2;
         const bool ok2 = u2.parse(tu.s8, nullptr) == upa::validation_errc::ok;
         if (!ok2) return "parsetrace invalid";
-        if (u2.is_file_scheme() || u2.is_null(upa::url::HOST) || u2.has_opaque_path()) return "parsetrace unsupported";
+        if (u2.is_file_scheme() || u2.has_opaque_path()) return "parsetrace unsupported";
         std::string logged;
         {
             trace_serializer ts(u);
